@@ -726,11 +726,16 @@ Lemma ex_pom_ok_value :
   analysis_maven ex_pom_ok = Ok [mkDep "org.a" "aa" "test"; mkDep "org.b" "bb" ""; mkDep "org.c.d" "cc" ""].
 Proof. vm_compute. reflexivity. Qed.
 
-(* OPEN finding: a pom that declares another encoding reads as empty: no dependency at all *)
-Lemma maven_encoding_refuted :
-  analysis_maven (ex_pom_enc "ISO-8859-1" [ex_dep [XT "org.a"] [XT "aa"] []]) = Ok []
+(* repaired finding C19-pom-encoding (ParseXML installs a CharsetReader): a pom that declares another
+   ASCII-compatible encoding is read like one that declares UTF-8; what remains outside [decls_ok] is a
+   label the reader does not know (or a version other than 1.0), where the decoder stops *)
+Lemma maven_encoding_repaired :
+  analysis_maven (ex_pom_enc "ISO-8859-1" [ex_dep [XT "org.a"] [XT "aa"] []]) = Ok [mkDep "org.a" "aa" ""]
   /\ spec_maven (ex_pom_enc "ISO-8859-1" [ex_dep [XT "org.a"] [XT "aa"] []]) = [mkDep "org.a" "aa" ""]
-  /\ analysis_maven (ex_pom_enc "UTF-8" [ex_dep [XT "org.a"] [XT "aa"] []]) = Ok [mkDep "org.a" "aa" ""].
+  /\ wf_pom_b (ex_pom_enc "ISO-8859-1" [ex_dep [XT "org.a"] [XT "aa"] []]) = true
+  /\ analysis_maven (ex_pom_enc "UTF-8" [ex_dep [XT "org.a"] [XT "aa"] []]) = Ok [mkDep "org.a" "aa" ""]
+  /\ analysis_maven (ex_pom_enc "x-unknown" [ex_dep [XT "org.a"] [XT "aa"] []]) = Ok []
+  /\ wf_pom_b (ex_pom_enc "x-unknown" [ex_dep [XT "org.a"] [XT "aa"] []]) = false.
 Proof. repeat split; vm_compute; reflexivity. Qed.
 
 (* the report over a project: the double-quoted dependency that is imported is not reported *)
